@@ -24,6 +24,27 @@ def logp_pos(s):
     return -0.5 * jnp.sum((s["x"] - 1.0) ** 2) + 2.0 * jnp.log(s["y"]) - s["y"]
 
 
+class TuneErrRW(gs.RWKernel):
+    """Random-walk kernel that really tunes: tune() and end_warmup() rescale the step size, and report error code 1 in a
+    chain whose y lies outside the support (the engine only warns about such codes; every chain keeps the state its
+    own kernel returned)."""
+    error_book = {0: "no errors", 1: "outside the support", 90: "nan acceptance prob"}
+
+    def _code(self, model_state):
+        y = self.model.extract_position(["y"], model_state)["y"]
+        return jnp.where(jnp.all(y > 0), 0, 1).astype(jnp.int32)
+
+    def tune(self, prng_key, kernel_state, model_state, epoch, history=None):
+        from liesel.goose.kernel import DefaultTuningInfo, TuningOutcome
+        kernel_state.step_size = kernel_state.step_size * 1.5
+        return TuningOutcome(DefaultTuningInfo(error_code=self._code(model_state), time=epoch.time), kernel_state)
+
+    def end_warmup(self, prng_key, kernel_state, model_state, tuning_history):
+        from liesel.goose.kernel import WarmupOutcome
+        kernel_state.step_size = kernel_state.step_size * 0.8
+        return WarmupOutcome(error_code=self._code(model_state), kernel_state=kernel_state)
+
+
 SCHEDULES = {
     "S1": [(1, 4, 1), (3, 2, 1), (4, 6, 2)],
     "S2": [(2, 3, 1), (4, 3, 3), (4, 3, 1)],
@@ -62,6 +83,9 @@ def one_run(kernel="rw", schedule="S1", seed=7, seedform="int", chains=3, multi=
             b.set_initial_values(state_of(inits[0]))
         if kernel == "rw":
             b.add_kernel(gs.RWKernel(["x"], initial_step_size=0.7))
+            b.add_kernel(gs.RWKernel(["y"], initial_step_size=0.4))
+        elif kernel == "tunerw":
+            b.add_kernel(TuneErrRW(["x"], initial_step_size=0.7))
             b.add_kernel(gs.RWKernel(["y"], initial_step_size=0.4))
         elif kernel == "probe":
             b.add_kernel(ProbeKernel(["x"], kidx=1, cap=64, all_keys=["x", "y"]))
@@ -164,6 +188,9 @@ def table_jobs(quick=True):
     # one chain's jittered start lies outside the support (NaN log-density): the other chains still get their jitter and
     # their trajectories do not depend on that neighbour
     base = dict(kernel="rw", schedule="S1", seed=13, chains=3, support=True, jitter=True, multi=True)
+    tabs.append([dict(base, inits=(2.0, 3.0, 4.0)), dict(base, inits=(2.0, 3.0, 0.4)), dict(base, inits=(2.0, 0.2, 4.0))])
+    # ... also when the kernel's tuning / end-of-warm-up reports an error in that chain only
+    base = dict(kernel="tunerw", schedule="S1", seed=17, chains=3, support=True, jitter=True, multi=True)
     tabs.append([dict(base, inits=(2.0, 3.0, 4.0)), dict(base, inits=(2.0, 3.0, 0.4)), dict(base, inits=(2.0, 0.2, 4.0))])
     # EngineBuilder.set_engine_seed in both forms, for several chain counts (a raw key has shape (2,))
     for chains in ((2, 1) if quick else (2, 1, 4)):
